@@ -132,7 +132,7 @@ def run(ctx: Ctx) -> None:
 
             class _DfgKey(dict):
                 pass
-            self_tok = Tok("self", dfg=dfg)
+            self_tok = Tok("self", dfg=dfg, __classes__=[comp])
             env = {ps[0]: self_tok, ps[1]: args, ps[2]: Tok("ports_iter"), ps[3]: Tok("fty", inputs=inputs),
                    "next": h_next, "self.visit": h_visit, "contains_subscript": h_contains, "InputFlags": Tok("InputFlags", Inout="Inout", Comptime="Comptime")}
             n += 1
